@@ -72,6 +72,10 @@ def build(rng, typ, r, c, form, nf, tmpdir, k):
     if r == c:
         sc.lines.append(sc.apply_line(0, sc.dut))
         sc.apply_at = len(sc.lines) - 1
+        # the device measured at some of the calibration points only (fewer device frequencies than calibration frequencies)
+        sc.sub_idx = sorted(rng.sample(range(nf), rng.randint(1, nf - 1))) if nf >= 2 else None
+        if sc.sub_idx is not None:
+            sc.lines.append(sc.apply_line(0, sc.dut, idx=sc.sub_idx))
     sc.lines.append('cal save 0 ' + vlib.hexbytes(sc.path))
     sc.save_at = len(sc.lines) - 1
     sc.lines += ['cal free 0', 'cal live']
@@ -130,6 +134,14 @@ def run(chk):
                 if not e <= 1e-8:
                     chk.violation('apply', '%s: vnacal_apply does not recover the device: max |S - S_true| = %.3e' % (tag, e), s.lines[:s.apply_at + 1])
                     continue
+                if getattr(s, 'sub_idx', None) is not None:
+                    ok, S = calsim.parse_apply(o[s.apply_at + 1], s.p)
+                    e = max(np.abs(S[k_] - s.dut[f]).max() for k_, f in enumerate(s.sub_idx)) if ok and len(S) == len(s.sub_idx) else float('inf')
+                    if not e <= 1e-8:
+                        chk.violation('apply-subset', '%s: vnacal_apply at calibration points %s only (of %d) does not recover the device: max |S - S_true| = %.3e' % (
+                            tag, s.sub_idx, s.nf, e), s.lines[:s.apply_at + 2])
+                        continue
+                    chk.count('apply_subset_ok')
             try:
                 cal = calfile.load(s.path, exe)[0]
                 res = 0.0
